@@ -14,7 +14,10 @@ import (
 	"unicode/utf8"
 
 	"github.com/jf-tech/omniparser"
+	"github.com/jf-tech/omniparser/customfuncs"
 	"github.com/jf-tech/omniparser/errs"
+	"github.com/jf-tech/omniparser/extensions/omniv21"
+	v21funcs "github.com/jf-tech/omniparser/extensions/omniv21/customfuncs"
 	"github.com/jf-tech/omniparser/idr"
 	"github.com/jf-tech/omniparser/transformctx"
 	"pgregory.net/rapid"
@@ -302,6 +305,28 @@ func (g *c02DeclGen) leaf() map[string]interface{} {
 	return d
 }
 
+// Caller-registered functions (the documented way: an Extension whose table is Merge(common, omni.2.1, own)) with
+// parameters of every cast type and a variadic interface{} tail: "absent values are passed as the parameter's zero value"
+// is only observable on parameters that are not strings.
+func c02Mix(_ *transformctx.Ctx, s string, n int64, b bool, f float64) (string, error) {
+	return fmt.Sprintf("%s|%d|%t|%g", s, n, b, f), nil
+}
+
+func c02Var(_ *transformctx.Ctx, prefix string, vals ...interface{}) (string, error) {
+	var sb strings.Builder
+	sb.WriteString(prefix)
+	for _, v := range vals {
+		fmt.Fprintf(&sb, "[%T:%v]", v, v)
+	}
+	return sb.String(), nil
+}
+
+var c02Ext = omniparser.Extension{
+	CreateSchemaHandler: omniv21.CreateSchemaHandler,
+	CustomFuncs: customfuncs.Merge(customfuncs.CommonCustomFuncs, v21funcs.OmniV21CustomFuncs,
+		customfuncs.CustomFuncs{"c02mix": c02Mix, "c02var": c02Var}),
+}
+
 func (g *c02DeclGen) customFunc(depth int) map[string]interface{} {
 	g.n++
 	d := map[string]interface{}{}
@@ -327,8 +352,33 @@ func (g *c02DeclGen) customFunc(depth int) map[string]interface{} {
 		}
 		return strArg()
 	}
+	// an argument for a parameter of the given cast type: absent (an xpath that matches nothing), a well-typed constant,
+	// or a leaf cast to the type (the cast may fail the record)
+	typedArg := func(typ, good string) interface{} {
+		switch rapid.IntRange(0, 4).Draw(g.t, g.label("typedParam")) {
+		case 0, 1:
+			return map[string]interface{}{"xpath": "nosuch", "type": typ}
+		case 2, 3:
+			return map[string]interface{}{"const": good, "type": typ}
+		default:
+			a := g.leaf()
+			a["type"] = typ
+			return a
+		}
+	}
 	var cf map[string]interface{}
-	switch rapid.IntRange(0, 8).Draw(g.t, g.label("cfk")) {
+	switch rapid.IntRange(0, 9).Draw(g.t, g.label("cfk")) {
+	case 9:
+		if rapid.Bool().Draw(g.t, g.label("ownVariadic")) {
+			args := []interface{}{typedArg("string", "p")}
+			for i, n := 0, rapid.IntRange(0, 3).Draw(g.t, g.label("nvar")); i < n; i++ {
+				tg := rapid.SampledFrom([][2]string{{"string", "s"}, {"int", "7"}, {"boolean", "true"}, {"float", "1.5"}}).Draw(g.t, g.label("vart"))
+				args = append(args, typedArg(tg[0], tg[1]))
+			}
+			cf = map[string]interface{}{"name": "c02var", "args": args}
+		} else {
+			cf = map[string]interface{}{"name": "c02mix", "args": []interface{}{typedArg("string", "s"), typedArg("int", "7"), typedArg("boolean", "true"), typedArg("float", "1.5")}}
+		}
 	case 0, 1:
 		n := rapid.IntRange(0, 3).Draw(g.t, g.label("nargs"))
 		args := []interface{}{}
@@ -694,7 +744,7 @@ func checkC02(c c02Case) obs.Result {
 		return obs.Violationf("harness: bad decls: %v", err)
 	}
 	schema := c.schema()
-	sch, err := omniparser.NewSchema("schema", strings.NewReader(schema))
+	sch, err := omniparser.NewSchema("schema", strings.NewReader(schema), c02Ext)
 	if err != nil {
 		if os.Getenv("VERIF_C02_DEBUG") != "" {
 			fmt.Printf("REJECTED: %v\n%s\n", err, c.Decls)
